@@ -491,6 +491,22 @@ pub mod bed {
     }
 
     fn build(r: &Rec, setters: bool) -> lib::Record {
+        // the setters are independent of each other: for every other record they are called in another order
+        // (score before name, coordinates last) on a record whose fields already hold other values
+        if setters && r.aux.len() >= 2 && r.start % 2 == 1 {
+            let mut b = lib::Record::new();
+            b.set_name("overwritten");
+            b.set_end(7);
+            b.set_score(&r.aux[1]);
+            b.set_name(&r.aux[0]);
+            for a in &r.aux[2..] {
+                b.push_aux(a);
+            }
+            b.set_end(r.end);
+            b.set_start(r.start);
+            b.set_chrom(&r.chrom);
+            return b;
+        }
         let mut b = lib::Record::new();
         b.set_chrom(&r.chrom);
         b.set_start(r.start);
